@@ -271,9 +271,50 @@ impl World {
 	}
 }
 
+/// "A WebSocket connection counts for its whole life": a session whose peer has said goodbye (close frame) but does not read
+/// what the server still owes it - the writer is blocked on a full pipe, the session's task has not ended - keeps its slot.
+/// (a hand-rolled peer: `soketto`'s client cannot half-close).  With max_connections = 1 a second session is refused until the first one is really over; then the slot is there again.
+async fn lingering_teardown() -> Vec<(String, Value)> {
+	let mut probs = vec![];
+	let rig = Rig::new(RigCfg { max_conns: 1, buf_cap: 4, ..Default::default() });
+	let (stop, _handle) = jsonrpsee_server::stop_channel();
+	let Ok(mut a) = RawWs::connect(rig.svc(stop.clone()), stop.clone(), 16 * 1024).await else {
+		return vec![("lingering-teardown:first-session-refused".into(), Value::Null)];
+	};
+	// six results of 150 kB that the peer never reads: the session's writer blocks on the full pipe
+	for j in 0..6 {
+		let _ = a.send_frame(true, 1, format!(r#"{{"jsonrpc":"2.0","id":{j},"method":"big","params":[150000,"ascii"]}}"#).as_bytes()).await;
+	}
+	tokio::time::sleep(Duration::from_millis(100)).await;
+	// the peer is done sending (FIN) but stays connected, still not reading
+	a.shutdown_write().await;
+	tokio::time::sleep(Duration::from_millis(150)).await;
+	match RawWs::connect(rig.svc(stop.clone()), stop.clone(), 16 * 1024).await {
+		Err(429) => {}
+		Err(e) => probs.push((format!("lingering-teardown:second-session-answered-{e}"), Value::Null)),
+		Ok(_) => probs.push(("lingering-teardown:second-session-admitted-while-the-first-is-not-over".into(), json!({"max_connections": 1}))),
+	}
+	// the first peer goes away for good: its slot comes back
+	drop(a);
+	let mut again = false;
+	for _ in 0..200 {
+		if RawWs::connect(rig.svc(stop.clone()), stop.clone(), 16 * 1024).await.is_ok() {
+			again = true;
+			break;
+		}
+		tokio::time::sleep(Duration::from_millis(10)).await;
+	}
+	if !again {
+		probs.push(("lingering-teardown:slot-not-reusable-after-the-session-ended".into(), Value::Null));
+	}
+	probs
+}
+
 pub fn replay(cases: &[Value], out: &mut Out) {
 	let rt = tokio::runtime::Builder::new_multi_thread().worker_threads(8).enable_all().build().unwrap();
 	let cycles: usize = std::env::var("VERIF_CYCLES").ok().and_then(|s| s.parse().ok()).unwrap_or(3);
+	let extra = rt.block_on(lingering_teardown());
+	let mut extra = Some(extra);
 	rt.block_on(async {
 		let all: Vec<(usize, Value)> = cases.iter().cloned().enumerate().collect();
 		let mut handles = vec![];
@@ -288,7 +329,10 @@ pub fn replay(cases: &[Value], out: &mut Out) {
 			}));
 		}
 		for h in handles {
-			for (i, probs) in h.await.unwrap() {
+			for (i, mut probs) in h.await.unwrap() {
+				if let Some(e) = extra.take() {
+					probs.extend(e); // (reported with the first verdict)
+				}
 				out.problems(i, 0, probs, Value::Null);
 			}
 		}
